@@ -27,7 +27,7 @@ def run(ctx: Ctx) -> None:
     base = 1000 * ctx.seed
     items: List[Dict[str, Any]] = []
     for k in range(ctx.pick(220, 3000)):
-        items.append({"id": f"match{base + k}", "kind": "match", "seed": 100000 + base + k, "steps": 5, "weight": 1})
+        items.append({"id": f"match{base + k}", "kind": "match", "seed": 100000 + base + k, "steps": 5 if k % 3 else 18, "weight": 1})
     for k in range(ctx.pick(30, 300)):
         items.append({"id": f"mdisp{base + k}", "kind": "match", "seed": 150000 + base + k, "steps": 25, "focus": "dispatch", "weight": 3})
     for k in range(ctx.pick(20, 200)):
